@@ -3,6 +3,9 @@ package c07
 
 import (
 	"fmt"
+	"math"
+	"sort"
+	"strconv"
 	"testing"
 
 	"gopkg.in/typ.v4"
@@ -22,51 +25,148 @@ const (
 	opLen      = 6 // Len()
 	opString   = 7 // String()
 	opScribble = 8 // the caller overwrites position A mod n of the slice it passed to NewSorted with elem(B)
-	nOps       = 9
+	opSweep    = 9 // strict orders: Index/Contains of (up to 64 evenly spread) distinct stored values and of 8 values elem(A), elem(A+1), ...
+	nOps       = 10
 )
 
 // Index modes (Op.B of RemoveAt/Get): 0 = A mod Len (a valid index unless the
-// slice is empty), 1 = -1, 2 = Len, 3 = Len+3, 4 = -(A+2).
-const nModes = 5
+// slice is empty; A = -1 is the last position), 1 = -1, 2 = Len, 3 = Len+3,
+// 4 = -(A+2), 5 = MaxInt, 6 = MinInt, 7 = Len/2 (valid unless empty).
+const nModes = 8
 
+// Op: one call, executed 1+R times in a row; the k-th execution of this op
+// (counted over repeats and rounds) uses A + k*S in place of A.
 type Op struct {
 	K int `json:"k"`
 	A int `json:"a"`
 	B int `json:"b"`
+	R int `json:"r,omitempty"`
+	S int `json:"s,omitempty"`
 }
 
-// Case: one Sorted built from Init (raw ints, mapped to elements by the order,
-// see elem functions) with Spare extra capacity behind the caller's slice,
-// then Ops.
+// Fill: N raw values A, A+S, A+2S, ... appended to the initial input.
+type Fill struct {
+	N int `json:"n"`
+	A int `json:"a"`
+	S int `json:"s"`
+}
+
+const (
+	maxRepeat  = 1 << 15 // R, Rounds and Fill.N are reduced modulo this
+	maxLenSeen = 1 << 20
+)
+
+// Case: one Sorted built from Init followed by the runs of Bulk (raw ints,
+// mapped to elements by the order and the alphabet size Vals, see the elem
+// functions) with Spare extra capacity behind the caller's slice, then the
+// list Ops executed 1+Rounds times.
 //
-// Order: "int" (NewSortedOrdered[int]), "named" (NewSorted over a named slice
-// type with typ.Less), "desc" (NewSorted with a > b), "str" (NewSortedOrdered
-// over strings whose alphabetical order differs from their numbering) —
-// these four are strict total orders consistent with == — and "weak"
-// (NewSorted over {K,T} structs comparing K only).
+// Strict total orders consistent with ==:
+//
+//	"int"     NewSortedOrdered[int]
+//	"named"   NewSorted over a named slice type without methods, typ.Less
+//	"desc"    NewSorted with a > b
+//	"str"     NewSortedOrdered over strings whose alphabetical order differs from their numbering ("" and prefix pairs included)
+//	"edge"    NewSortedOrdered[int] over MinInt, MinInt+1, -1, 0, 1, MaxInt-1, MaxInt (+ a band around 0)
+//	"float"   NewSortedOrdered[float64] over -Inf, -0.0, +0.0, the smallest denormal, +Inf, ... (no NaN)
+//	"lex"     NewSorted over {K,T} structs ordered by K, then T
+//	"unit"    NewSorted over struct{} (zero-size, all values equal) with a less that is always false
+//	"ifdesc"  NewSorted(sort.IntSlice, a > b): the slice type carries its own ascending sort.Interface
+//	"ifstr"   NewSorted(sort.StringSlice, a > b)
+//	"iffloat" NewSorted(sort.Float64Slice, a > b)
+//	"ifweird" NewSorted(weirdInts, typ.Less): own value-receiver Less compares x mod 3 descending
+//	"ifptr"   NewSorted(ptrInts, typ.Less): own pointer-receiver Len/Less/Swap, descending
+//
+// Weak orders (first and last sentence of the statement only):
+//
+//	"weak"    NewSorted over {K,T} structs comparing K only
+//	"ifweak"  the same over a named slice type whose own sort.Interface compares T only
 type Case struct {
-	Order string `json:"order"`
-	Init  []int  `json:"init"`
-	Spare int    `json:"spare"`
-	Ops   []Op   `json:"ops"`
+	Order  string `json:"order"`
+	Vals   int    `json:"vals,omitempty"` // alphabet size; 0 = 7
+	Init   []int  `json:"init"`
+	Bulk   []Fill `json:"bulk,omitempty"`
+	Spare  int    `json:"spare"`
+	Ops    []Op   `json:"ops"`
+	Rounds int    `json:"rounds,omitempty"`
 }
 
-const rule = "Sorted built by NewSorted/NewSortedOrdered from 0..10 elements (raw x in 0..20: strict orders use value x mod 7, the weak order uses key x mod 7 and tag x div 7) in a caller slice with 0..3 spare capacity; " +
-	"<= 40 ops Add/Remove/RemoveAt/Get/Index/Contains/Len/String plus Scribble (caller overwrites its own slice); indices are valid (A mod Len) or one of -1, Len, Len+3, -(A+2). " +
-	"After EVERY call the contents are read back through Len+Get and compared with a slice model: non-decreasing under less and exact multiset after construction and Add; " +
+const rule = "Sorted built by NewSorted/NewSortedOrdered from explicit raw values plus arithmetic runs (raw x: strict orders use the x mod Vals-th value of the order's alphabet, the weak orders key x mod Vals and tag x div Vals; Vals = 7 unless stated) in a caller slice with spare capacity (nil when empty); " +
+	"ops Add/Remove/RemoveAt/Get/Index/Contains/Len/String, Scribble (caller overwrites its own slice) and Sweep (Index+Contains of up to 64 evenly spread distinct stored values and of 8 more values), each op repeatable R times with its argument advancing by a stride, the whole list repeatable in rounds; " +
+	"indices are valid (A mod Len, Len/2) or one of -1, Len, Len+3, -(A+2), MaxInt, MinInt. " +
+	"After EVERY single call the contents are read back through Len+Get and compared with a slice model: non-decreasing under less and exact multiset after construction and Add; " +
 	"exactly 'before minus position p' after Remove (p = returned index) and RemoveAt; unchanged (same sequence) after everything else including Remove->-1 and recovered out-of-range panics; " +
 	"the caller's slice (and its spare capacity) must never change except by Scribble, and Scribble must not show through. " +
 	"Strict orders additionally: Get(Add(v)) == v, Index == first position or -1, Contains <=> Index != -1, Remove(present) returns a position that held v, Remove(absent) == -1 without panic. " +
-	"All orders: Get/RemoveAt act on exactly position i and panic outside [0,Len). " +
-	"non-trivial = the history has a duplicate Add, a Remove of an absent value, an out-of-range Get or RemoveAt, and a RemoveAt strictly inside (0 < i < Len-1)"
+	"All orders: Get/RemoveAt act on exactly position i and panic outside [0,Len). "
+
+const ruleSmallNT = "non-trivial = the history has a duplicate Add, a Remove of an absent value, an out-of-range Get or RemoveAt, and a RemoveAt strictly inside (0 < i < Len-1)"
+const ruleBigNT = "non-trivial = the slice reached >= 32 elements and an element was removed while it held >= 32"
 
 type kt struct{ K, T int }
 type myInts []int
+
+// weirdInts carries its own sort.Interface (value receivers) whose Less is NOT the order handed to NewSorted.
+type weirdInts []int
+
+func (w weirdInts) Len() int           { return len(w) }
+func (w weirdInts) Swap(i, j int)      { w[i], w[j] = w[j], w[i] }
+func (w weirdInts) Less(i, j int) bool { return w[i]%3 > w[j]%3 }
+
+// ptrInts carries sort.Interface methods on the pointer receiver (descending).
+type ptrInts []int
+
+func (p *ptrInts) Len() int           { return len(*p) }
+func (p *ptrInts) Swap(i, j int)      { (*p)[i], (*p)[j] = (*p)[j], (*p)[i] }
+func (p *ptrInts) Less(i, j int) bool { return (*p)[i] > (*p)[j] }
+
+// ktByTag is a slice of {K,T} whose own sort.Interface compares the tag only.
+type ktByTag []kt
+
+func (b ktByTag) Len() int           { return len(b) }
+func (b ktByTag) Swap(i, j int)      { b[i], b[j] = b[j], b[i] }
+func (b ktByTag) Less(i, j int) bool { return b[i].T > b[j].T }
 
 func mod(x, m int) int { return ((x % m) + m) % m }
 
 // strNames: alphabetical order differs from index order; includes "" and a prefix pair.
 var strNames = []string{"d", "a", "", "g", "b", "ab", "c"}
+
+var edgeInts = []int{0, math.MaxInt, math.MinInt, -1, math.MaxInt - 1, 1, math.MinInt + 1}
+
+var floatVals = []float64{3, math.Inf(1), math.Copysign(0, -1), math.Inf(-1), 0, math.SmallestNonzeroFloat64, -2.5}
+
+func intElem(vals int) func(int) int { return func(x int) int { return mod(x, vals) } }
+
+func strElem(vals int) func(int) string {
+	return func(x int) string {
+		x = mod(x, vals)
+		if x < 7 {
+			return strNames[x]
+		}
+		return strNames[x%7] + strconv.Itoa(x/7) // injective; many prefix pairs ("a" < "a1" < "ab" < "ab1")
+	}
+}
+
+func edgeElem(vals int) func(int) int {
+	return func(x int) int {
+		x = mod(x, vals)
+		if x < 7 {
+			return edgeInts[x]
+		}
+		return x/2*(1-2*(x%2)) + 7*(1-2*(x%2)) // 8 -> 11, 9 -> -11, 10 -> 12, ...: a band around 0 that avoids -1, 0, 1
+	}
+}
+
+func floatElem(vals int) func(int) float64 {
+	return func(x int) float64 {
+		x = mod(x, vals)
+		if x < 7 {
+			return floatVals[x]
+		}
+		return float64(x-7)*0.7 - 10.1
+	}
+}
 
 type env[E comparable] struct {
 	elem     func(x int) E
@@ -77,24 +177,66 @@ type env[E comparable] struct {
 }
 
 func Run(c Case) pbt.Outcome {
+	vals := c.Vals
+	if vals <= 0 {
+		vals = 7
+	}
+	if vals > 1<<24 {
+		vals = 1 << 24
+	}
+	descI := func(a, b int) bool { return a > b }
+	descS := func(a, b string) bool { return a > b }
+	descF := func(a, b float64) bool { return a > b }
 	switch c.Order {
 	case "int":
-		return run(c, env[int]{elem: func(x int) int { return mod(x, 7) }, less: typ.Less[int], strict: true, sentinel: -99,
+		return run(c, env[int]{elem: intElem(vals), less: typ.Less[int], strict: true, sentinel: -99,
 			build: func(in []int) slices.Sorted[int] { return slices.NewSortedOrdered(in...) }})
 	case "named":
-		return run(c, env[int]{elem: func(x int) int { return mod(x, 7) }, less: typ.Less[int], strict: true, sentinel: -99,
+		return run(c, env[int]{elem: intElem(vals), less: typ.Less[int], strict: true, sentinel: -99,
 			build: func(in []int) slices.Sorted[int] { return slices.NewSorted(myInts(in), typ.Less[int]) }})
 	case "desc":
-		desc := func(a, b int) bool { return a > b }
-		return run(c, env[int]{elem: func(x int) int { return mod(x, 7) }, less: desc, strict: true, sentinel: -99,
-			build: func(in []int) slices.Sorted[int] { return slices.NewSorted(in, desc) }})
+		return run(c, env[int]{elem: intElem(vals), less: descI, strict: true, sentinel: -99,
+			build: func(in []int) slices.Sorted[int] { return slices.NewSorted(in, descI) }})
 	case "str":
-		return run(c, env[string]{elem: func(x int) string { return strNames[mod(x, 7)] }, less: typ.Less[string], strict: true, sentinel: "~spare~",
+		return run(c, env[string]{elem: strElem(vals), less: typ.Less[string], strict: true, sentinel: "~spare~",
 			build: func(in []string) slices.Sorted[string] { return slices.NewSortedOrdered(in...) }})
+	case "edge":
+		return run(c, env[int]{elem: edgeElem(vals), less: typ.Less[int], strict: true, sentinel: -99,
+			build: func(in []int) slices.Sorted[int] { return slices.NewSortedOrdered(in...) }})
+	case "float":
+		return run(c, env[float64]{elem: floatElem(vals), less: typ.Less[float64], strict: true, sentinel: -99.5,
+			build: func(in []float64) slices.Sorted[float64] { return slices.NewSortedOrdered(in...) }})
+	case "lex":
+		lex := func(a, b kt) bool { return a.K < b.K || (a.K == b.K && a.T < b.T) }
+		return run(c, env[kt]{elem: func(x int) kt { x = mod(x, vals); return kt{x / 3, x % 3} }, less: lex, strict: true, sentinel: kt{-99, -99},
+			build: func(in []kt) slices.Sorted[kt] { return slices.NewSorted(in, lex) }})
+	case "unit":
+		never := func(a, b struct{}) bool { return false }
+		return run(c, env[struct{}]{elem: func(int) struct{} { return struct{}{} }, less: never, strict: true,
+			build: func(in []struct{}) slices.Sorted[struct{}] { return slices.NewSorted(in, never) }})
+	case "ifdesc":
+		return run(c, env[int]{elem: intElem(vals), less: descI, strict: true, sentinel: -99,
+			build: func(in []int) slices.Sorted[int] { return slices.NewSorted(sort.IntSlice(in), descI) }})
+	case "ifstr":
+		return run(c, env[string]{elem: strElem(vals), less: descS, strict: true, sentinel: "~spare~",
+			build: func(in []string) slices.Sorted[string] { return slices.NewSorted(sort.StringSlice(in), descS) }})
+	case "iffloat":
+		return run(c, env[float64]{elem: floatElem(vals), less: descF, strict: true, sentinel: -99.5,
+			build: func(in []float64) slices.Sorted[float64] { return slices.NewSorted(sort.Float64Slice(in), descF) }})
+	case "ifweird":
+		return run(c, env[int]{elem: intElem(vals), less: typ.Less[int], strict: true, sentinel: -99,
+			build: func(in []int) slices.Sorted[int] { return slices.NewSorted(weirdInts(in), typ.Less[int]) }})
+	case "ifptr":
+		return run(c, env[int]{elem: intElem(vals), less: typ.Less[int], strict: true, sentinel: -99,
+			build: func(in []int) slices.Sorted[int] { return slices.NewSorted(ptrInts(in), typ.Less[int]) }})
 	case "weak":
 		byKey := func(a, b kt) bool { return a.K < b.K }
-		return run(c, env[kt]{elem: func(x int) kt { x = mod(x, 21); return kt{x % 7, x / 7} }, less: byKey, strict: false, sentinel: kt{-99, -99},
+		return run(c, env[kt]{elem: func(x int) kt { x = mod(x, 3*vals); return kt{x % vals, x / vals} }, less: byKey, strict: false, sentinel: kt{-99, -99},
 			build: func(in []kt) slices.Sorted[kt] { return slices.NewSorted(in, byKey) }})
+	case "ifweak":
+		byKey := func(a, b kt) bool { return a.K < b.K }
+		return run(c, env[kt]{elem: func(x int) kt { x = mod(x, 3*vals); return kt{x % vals, x / vals} }, less: byKey, strict: false, sentinel: kt{-99, -99},
+			build: func(in []kt) slices.Sorted[kt] { return slices.NewSorted(ktByTag(in), byKey) }})
 	}
 	return pbt.Fail("malformed case: unknown order %q", c.Order)
 }
@@ -147,39 +289,86 @@ func count[E comparable](s []E, v E) int {
 	return n
 }
 
+// show renders a slice for a message; long slices are abbreviated around the position of interest.
+func show[E any](s []E, at int) string {
+	if len(s) <= 48 {
+		return fmt.Sprint(s)
+	}
+	lo, hi := at-6, at+7
+	if lo < 0 {
+		lo = 0
+	}
+	if hi > len(s) {
+		hi = len(s)
+	}
+	if lo >= hi {
+		lo, hi = 0, 6
+	}
+	return fmt.Sprintf("(len %d) first %v ... [%d:%d] = %v ... last %v", len(s), s[:4], lo, hi, s[lo:hi], s[len(s)-4:])
+}
+
+// firstDiff returns the first position at which a and b differ (min len if one is a prefix of the other).
+func firstDiff[E comparable](a, b []E) int {
+	for i := 0; i < len(a) && i < len(b); i++ {
+		if a[i] != b[i] {
+			return i
+		}
+	}
+	if len(a) < len(b) {
+		return len(a)
+	}
+	return len(b)
+}
+
 func run[E comparable](c Case, e env[E]) pbt.Outcome {
-	n := len(c.Init)
+	init := make([]E, 0, len(c.Init))
+	for _, x := range c.Init {
+		init = append(init, e.elem(x))
+	}
+	for _, f := range c.Bulk {
+		for j, nn := 0, mod(f.N, maxRepeat); j < nn; j++ {
+			init = append(init, e.elem(f.A+j*f.S))
+		}
+	}
+	n := len(init)
 	spare := mod(c.Spare, 8)
-	back := make([]E, n+spare)
+	var back []E
+	if n+spare > 0 { // an empty input without spare capacity is handed over as a nil slice
+		back = make([]E, n+spare)
+	}
 	for i := range back {
 		back[i] = e.sentinel
 	}
-	for i, x := range c.Init {
-		back[i] = e.elem(x)
-	}
+	copy(back, init)
 	in := back[:n] // what the caller hands over: len n, cap n+spare
 	wantBack := append([]E(nil), back...)
-	hdr := fmt.Sprintf("order=%s init=%v", c.Order, wantBack[:n])
+	hdr := fmt.Sprintf("order=%s vals=%d init=%s", c.Order, c.Vals, show(wantBack[:n], 0))
 
 	s := e.build(in)
 
 	evals := 0
-	contents := func() []E {
+	// contentsInto reads the contents through Len+Get into buf (reallocated when too small).
+	contentsInto := func(buf []E) []E {
 		l := s.Len()
-		if l < 0 || l > 4096 {
+		if l < 0 || l > maxLenSeen {
 			panic(fmt.Sprintf("Len() = %d", l))
 		}
-		out := make([]E, l)
+		if cap(buf) < l {
+			buf = make([]E, l, l+l/4+8)
+		}
+		out := buf[:l]
 		for i := range out {
 			out[i] = s.Get(i)
 		}
 		evals += l + 1
 		return out
 	}
+	contents := func() []E { return contentsInto(nil) }
+	var spareBuf []E // the buffer that does not hold the model
 	sortedMsg := func(obs []E) string {
 		for i := 0; i+1 < len(obs); i++ {
 			if e.less(obs[i+1], obs[i]) {
-				return fmt.Sprintf("contents not in non-decreasing order: position %d holds %v, position %d holds %v and less(%v,%v) is true; contents %v", i, obs[i], i+1, obs[i+1], obs[i+1], obs[i], obs)
+				return fmt.Sprintf("contents not in non-decreasing order: position %d holds %v, position %d holds %v and less(%v,%v) is true; contents %s", i, obs[i], i+1, obs[i+1], obs[i+1], obs[i], show(obs, i))
 			}
 		}
 		return ""
@@ -187,18 +376,31 @@ func run[E comparable](c Case, e env[E]) pbt.Outcome {
 	// multisetMsg: obs must hold exactly the elements of want (any order).
 	multisetMsg := func(obs, want []E) string {
 		if len(obs) != len(want) {
-			return fmt.Sprintf("contents have %d element(s), want %d; contents %v, expected multiset %v", len(obs), len(want), obs, want)
+			return fmt.Sprintf("contents have %d element(s), want %d; contents %s, expected multiset %s", len(obs), len(want), show(obs, 0), show(want, 0))
 		}
+		cnt := make(map[E]int, len(want))
 		for _, v := range want {
-			if count(obs, v) != count(want, v) {
-				return fmt.Sprintf("contents hold %v %d time(s), want %d; contents %v, expected multiset %v", v, count(obs, v), count(want, v), obs, want)
+			cnt[v]++
+		}
+		for _, v := range obs {
+			cnt[v]--
+		}
+		for _, v := range want { // in the order of want: deterministic
+			if cnt[v] != 0 {
+				return fmt.Sprintf("contents hold %v %d time(s), want %d; contents %s, expected multiset %s", v, count(obs, v), count(want, v), show(obs, firstIndex(obs, v)), show(want, firstIndex(want, v)))
+			}
+		}
+		for _, v := range obs {
+			if cnt[v] != 0 {
+				return fmt.Sprintf("contents hold %v %d time(s), want %d; contents %s, expected multiset %s", v, count(obs, v), count(want, v), show(obs, firstIndex(obs, v)), show(want, 0))
 			}
 		}
 		return ""
 	}
 	backMsg := func() string {
 		if !eq(back, wantBack) {
-			return fmt.Sprintf("the caller's slice changed: now %v (with spare capacity: %v), want %v (%v)", back[:n], back, wantBack[:n], wantBack)
+			d := firstDiff(back, wantBack)
+			return fmt.Sprintf("the caller's slice changed at position %d (len %d, cap %d): now %s, want %s", d, n, len(back), show(back, d), show(wantBack, d))
 		}
 		return ""
 	}
@@ -221,8 +423,13 @@ func run[E comparable](c Case, e env[E]) pbt.Outcome {
 		oobGet, oobRemoveAt, okGet                        bool
 		ratMid, ratEdge, emptied                          bool
 		idxAbsent, idxDup, idxPresent                     bool
-		scribbled                                         bool
+		scribbled, swept                                  bool
+		removedBig, quartered, regrown                    bool
+		staleIdx                                          bool
 		maxLen                                            = len(model)
+		peak                                              = len(model) // largest length since the slice was last empty
+		lastAdd                                           E
+		haveLastAdd, removedBelowLastAdd                  bool
 	)
 	initDups := false
 	for i := 0; i+1 < len(model); i++ {
@@ -241,6 +448,12 @@ func run[E comparable](c Case, e env[E]) pbt.Outcome {
 			return len(model) + 3
 		case 4:
 			return -(mod(op.A, 1000) + 2)
+		case 5:
+			return math.MaxInt
+		case 6:
+			return math.MinInt
+		case 7:
+			return len(model) / 2
 		}
 		if len(model) == 0 {
 			return 0
@@ -248,14 +461,26 @@ func run[E comparable](c Case, e env[E]) pbt.Outcome {
 		return mod(op.A, len(model))
 	}
 
-	for i, op := range c.Ops {
+	// noteRemoved: bookkeeping for a removal of position p of the current model.
+	noteRemoved := func(p int) {
+		if len(model) >= 32 {
+			removedBig = true
+		}
+		if haveLastAdd && e.less(model[p], lastAdd) {
+			removedBelowLastAdd = true
+		}
+	}
+
+	step := func(tag string, op Op) pbt.Outcome {
 		var what string
-		want := model // expected exact contents after the call (default: unchanged)
+		at := 0
+		removedAt := -1 // expected exact contents after the call: the model (default), or the model without this position
 		fail := func(format string, a ...any) pbt.Outcome {
-			return pbt.Fail("%s: op %d %s on %v: %s", hdr, i, what, model, fmt.Sprintf(format, a...))
+			return pbt.Fail("%s: %s %s on %s: %s", hdr, tag, what, show(model, at), fmt.Sprintf(format, a...))
 		}
 		isAdd := false
 		var added E
+		addedAt := -1
 		switch mod(op.K, nOps) {
 		case opAdd:
 			v := e.elem(op.A)
@@ -274,19 +499,22 @@ func run[E comparable](c Case, e env[E]) pbt.Outcome {
 				}
 			}
 			ret := s.Add(v)
+			at = ret
 			if e.strict {
 				if ret < 0 || ret > len(model) {
 					return fail("returned %d, outside [0,%d]", ret, len(model))
 				}
 				if got := s.Get(ret); got != v {
-					return fail("returned %d but Get(%d) = %v: the new value does not sit there; contents now %v", ret, ret, got, contents())
+					return fail("returned %d but Get(%d) = %v: the new value does not sit there; contents now %s", ret, ret, got, show(contents(), ret))
 				}
 			}
-			isAdd, added = true, v
+			isAdd, added, addedAt = true, v, ret
+			lastAdd, haveLastAdd, removedBelowLastAdd = v, true, false
 		case opRemove:
 			v := e.elem(op.A)
 			what = fmt.Sprintf("Remove(%v)", v)
 			first := firstIndex(model, v)
+			at = first
 			var ret int
 			if p, pv := try(func() { ret = s.Remove(v) }); p {
 				return fail("panicked: %v", pv)
@@ -308,7 +536,8 @@ func run[E comparable](c Case, e env[E]) pbt.Outcome {
 					if ret < 0 || ret >= len(model) || model[ret] != v {
 						return fail("returned %d, which is not a position that held %v", ret, v)
 					}
-					want = without(model, ret)
+					noteRemoved(ret)
+					removedAt = ret
 				}
 			} else {
 				switch {
@@ -319,37 +548,41 @@ func run[E comparable](c Case, e env[E]) pbt.Outcome {
 				case ret < 0 || ret >= len(model):
 					return fail("returned %d, outside [0,%d)", ret, len(model))
 				default:
-					want = without(model, ret)
+					noteRemoved(ret)
+					removedAt = ret
 				}
 			}
-			if len(want) == 0 && len(model) > 0 {
+			if removedAt >= 0 && len(model) == 1 {
 				emptied = true
 			}
 		case opRemoveAt:
 			idx := index(op)
+			at = idx
 			what = fmt.Sprintf("RemoveAt(%d)", idx)
 			p, pv := try(func() { s.RemoveAt(idx) })
 			if idx < 0 || idx >= len(model) {
 				oobRemoveAt = true
 				if !p {
-					return fail("did not panic although the index is outside [0,%d); contents now %v", len(model), contents())
+					return fail("did not panic although the index is outside [0,%d); contents now %s", len(model), show(contents(), 0))
 				}
 			} else {
 				if p {
 					return fail("panicked for a valid index: %v", pv)
 				}
-				want = without(model, idx)
+				noteRemoved(idx)
+				removedAt = idx
 				if idx > 0 && idx < len(model)-1 {
 					ratMid = true
 				} else {
 					ratEdge = true
 				}
-				if len(want) == 0 {
+				if len(model) == 1 {
 					emptied = true
 				}
 			}
 		case opGet:
 			idx := index(op)
+			at = idx
 			what = fmt.Sprintf("Get(%d)", idx)
 			var got E
 			p, pv := try(func() { got = s.Get(idx) })
@@ -372,11 +605,15 @@ func run[E comparable](c Case, e env[E]) pbt.Outcome {
 			what = fmt.Sprintf("Index(%v)", v)
 			got := s.Index(v)
 			first := firstIndex(model, v)
+			at = first
 			switch {
 			case first < 0:
 				idxAbsent = true
 			case count(model, v) > 1:
 				idxDup = true
+				if haveLastAdd && removedBelowLastAdd && v == lastAdd {
+					staleIdx = true
+				}
 			default:
 				idxPresent = true
 			}
@@ -388,7 +625,9 @@ func run[E comparable](c Case, e env[E]) pbt.Outcome {
 			what = fmt.Sprintf("Contains(%v)", v)
 			got := s.Contains(v)
 			if e.strict {
-				if w := firstIndex(model, v) >= 0; got != w {
+				first := firstIndex(model, v)
+				at = first
+				if w := first >= 0; got != w {
 					return fail("= %v, want %v", got, w)
 				}
 				if ix := s.Index(v); got != (ix != -1) {
@@ -415,40 +654,150 @@ func run[E comparable](c Case, e env[E]) pbt.Outcome {
 			in[pos] = v
 			wantBack[pos] = v
 			scribbled = true
+		case opSweep:
+			what = "Sweep"
+			if !e.strict {
+				break
+			}
+			swept = true
+			// model is non-decreasing under a strict order consistent with == (checked after every call), so equal
+			// values are adjacent and the first position of a value is the start of its run
+			var starts []int
+			for i := range model {
+				if i == 0 || model[i] != model[i-1] {
+					starts = append(starts, i)
+				}
+			}
+			stride, off := 1, 0
+			if len(starts) > 64 {
+				stride = len(starts) / 64
+				off = mod(op.A, stride)
+			}
+			for k := off; k < len(starts); k += stride {
+				i := starts[k]
+				at = i
+				if got := s.Index(model[i]); got != i {
+					return fail("Index(%v) = %d, want %d (first position holding the value)", model[i], got, i)
+				}
+				if !s.Contains(model[i]) {
+					return fail("Contains(%v) = false although position %d holds it", model[i], i)
+				}
+				evals += 2
+			}
+			for k := 0; k < 8; k++ {
+				v := e.elem(op.A + k)
+				first := firstIndex(model, v)
+				at = first
+				if got := s.Index(v); got != first {
+					return fail("Index(%v) = %d, want %d (first position holding the value, or -1)", v, got, first)
+				}
+				if got := s.Contains(v); got != (first >= 0) {
+					return fail("Contains(%v) = %v, want %v", v, got, first >= 0)
+				}
+				evals += 2
+			}
 		}
 		evals++
-		obs := contents()
+		obs := contentsInto(spareBuf)
 		if isAdd {
 			if m := sortedMsg(obs); m != "" {
 				return fail("%s", m)
 			}
-			exp := append(append(make([]E, 0, len(model)+1), model...), added)
-			if m := multisetMsg(obs, exp); m != "" {
-				return fail("%s", m)
+			// fast path: the contents are the model with the value inserted at the returned position (then the
+			// multiset is right by construction); otherwise compare the multisets
+			fast := addedAt >= 0 && addedAt <= len(model) && len(obs) == len(model)+1 && obs[addedAt] == added &&
+				eq(obs[:addedAt], model[:addedAt]) && eq(obs[addedAt+1:], model[addedAt:])
+			if !fast {
+				exp := append(append(make([]E, 0, len(model)+1), model...), added)
+				if m := multisetMsg(obs, exp); m != "" {
+					return fail("%s", m)
+				}
 			}
-		} else if !eq(obs, want) {
-			return fail("contents afterwards %v, want %v", obs, want)
+		} else if removedAt >= 0 {
+			if len(obs) != len(model)-1 || !eq(obs[:removedAt], model[:removedAt]) || !eq(obs[removedAt:], model[removedAt+1:]) {
+				want := without(model, removedAt)
+				d := firstDiff(obs, want)
+				return fail("contents afterwards differ from the expected ones (the former contents without position %d) at position %d: %s, want %s", removedAt, d, show(obs, d), show(want, d))
+			}
+		} else if !eq(obs, model) {
+			d := firstDiff(obs, model)
+			return fail("contents changed at position %d: %s, want them unchanged: %s", d, show(obs, d), show(model, d))
 		}
-		model = obs
+		if len(obs) < len(model) && peak >= 64 && len(obs) <= peak/4 {
+			quartered = true
+		}
+		if len(obs) > len(model) && quartered && len(obs) >= peak {
+			regrown = true
+		}
+		spareBuf, model = model[:0], obs
 		if len(model) > maxLen {
 			maxLen = len(model)
+		}
+		if len(model) > peak {
+			peak = len(model)
 		}
 		if m := backMsg(); m != "" {
 			return fail("%s", m)
 		}
+		return pbt.Outcome{}
+	}
+
+	occ := make([]int, len(c.Ops))
+	rounds := mod(c.Rounds, maxRepeat)
+	big := len(c.Bulk) > 0 || rounds > 0
+	steps := 0
+	for r := 0; r <= rounds; r++ {
+		for i, op0 := range c.Ops {
+			reps := mod(op0.R, maxRepeat)
+			if reps > 0 {
+				big = true
+			}
+			for j := 0; j <= reps; j++ {
+				op := op0
+				op.A = op0.A + occ[i]*op0.S
+				occ[i]++
+				steps++
+				tag := fmt.Sprintf("op %d", i)
+				if rounds > 0 || reps > 0 {
+					tag = fmt.Sprintf("round %d op %d repeat %d", r, i, j)
+				}
+				if o := step(tag, op); o.Violation != "" {
+					return o
+				}
+			}
+		}
 	}
 
 	out := pbt.Outcome{Evals: evals}
-	out.NonTrivial = dupAdd && remAbsent && (oobGet || oobRemoveAt) && ratMid
+	if big {
+		out.NonTrivial = maxLen >= 32 && removedBig
+	} else {
+		out.NonTrivial = dupAdd && remAbsent && (oobGet || oobRemoveAt) && ratMid
+	}
 	lab := func(cond bool, l string) {
 		if cond {
 			out.Labels = append(out.Labels, l)
 		}
 	}
 	out.Labels = append(out.Labels, "order="+c.Order)
+	switch v := c.Vals; {
+	case v == 1:
+		out.Labels = append(out.Labels, "vals=1")
+	case v == 0 || v == 7:
+		out.Labels = append(out.Labels, "vals=7")
+	case v < 7:
+		out.Labels = append(out.Labels, "vals=2..6")
+	case v < 100:
+		out.Labels = append(out.Labels, "vals=8..99")
+	default:
+		out.Labels = append(out.Labels, "vals>=100")
+	}
 	lab(n == 0, "init-empty")
+	lab(n == 0 && spare == 0, "init-nil")
 	lab(initDups, "init-has-duplicates")
 	lab(n > 0 && spare > 0, "init-spare-capacity")
+	lab(n > 20, "init>20")
+	lab(n >= 64, "init>=64")
 	lab(dupAdd, "add-duplicate")
 	lab(freshAdd, "add-new-value")
 	lab(addLow, "add-below-min")
@@ -466,15 +815,29 @@ func run[E comparable](c Case, e env[E]) pbt.Outcome {
 	lab(idxAbsent, "index-absent")
 	lab(idxPresent, "index-single")
 	lab(idxDup, "index-among-duplicates")
+	lab(staleIdx, "index-of-last-added-duplicate-after-removal-below-it")
 	lab(scribbled, "caller-scribbles-input")
+	lab(swept, "sweep")
+	lab(removedBig, "removal-at-len>=32")
+	lab(quartered, "drained-to-quarter-of-peak>=64")
+	lab(regrown, "regrown-to-peak-after-draining-to-quarter")
 	lab(maxLen >= 8, "maxlen>=8")
+	for _, t := range []int{32, 64, 128, 256, 512, 1024, 2048, 4096, 8192} {
+		if maxLen > t {
+			out.Labels = append(out.Labels, "maxlen>"+strconv.Itoa(t))
+		}
+	}
 	switch {
-	case len(c.Ops) >= 20:
-		out.Labels = append(out.Labels, "ops>=20")
-	case len(c.Ops) >= 8:
-		out.Labels = append(out.Labels, "ops=8..19")
+	case steps >= 1000:
+		out.Labels = append(out.Labels, "calls>=1000")
+	case steps >= 100:
+		out.Labels = append(out.Labels, "calls=100..999")
+	case steps >= 20:
+		out.Labels = append(out.Labels, "calls=20..99")
+	case steps >= 8:
+		out.Labels = append(out.Labels, "calls=8..19")
 	default:
-		out.Labels = append(out.Labels, "ops<8")
+		out.Labels = append(out.Labels, "calls<8")
 	}
 	return out
 }
@@ -484,25 +847,44 @@ var kindTable = []int{
 	opRemove, opRemove, opRemove, opRemove, opRemove,
 	opRemoveAt, opRemoveAt, opRemoveAt, opRemoveAt,
 	opGet, opGet, opIndex, opIndex, opContains,
-	opLen, opString, opScribble,
+	opLen, opString, opScribble, opSweep,
 }
 
-var modeTable = []int{0, 0, 0, 0, 0, 0, 1, 2, 3, 4}
+var modeTable = []int{0, 0, 0, 0, 0, 0, 0, 7, 1, 2, 3, 4, 5, 6}
 
-var opGen = rapid.Custom(func(t *rapid.T) Op {
-	op := Op{K: rapid.SampledFrom(kindTable).Draw(t, "k"), A: rapid.IntRange(0, 20).Draw(t, "a")}
-	switch op.K {
-	case opRemoveAt, opGet:
-		op.B = rapid.SampledFrom(modeTable).Draw(t, "mode")
-	case opScribble:
-		op.B = rapid.IntRange(0, 20).Draw(t, "b")
-	}
-	return op
-})
+// opGenWith: A in 0..maxA; repeats/strides drawn from the given tables.
+func opGenWith(maxA int, repeats, strides []int) *rapid.Generator[Op] {
+	return rapid.Custom(func(t *rapid.T) Op {
+		op := Op{K: rapid.SampledFrom(kindTable).Draw(t, "k"), A: rapid.IntRange(0, maxA).Draw(t, "a")}
+		switch op.K {
+		case opRemoveAt, opGet:
+			op.B = rapid.SampledFrom(modeTable).Draw(t, "mode")
+		case opScribble:
+			op.B = rapid.IntRange(0, maxA).Draw(t, "b")
+		}
+		op.R = rapid.SampledFrom(repeats).Draw(t, "r")
+		if op.R > 0 {
+			op.S = rapid.SampledFrom(strides).Draw(t, "s")
+		}
+		return op
+	})
+}
+
+// smallRepeats: one op in 16 is repeated; one in 64 is repeated 41 times (takes the slice past 32 elements).
+var smallRepeats = func() []int {
+	r := make([]int, 64)
+	r[60], r[61], r[62], r[63] = 1, 2, 5, 40
+	return r
+}()
+
+var smallOpGen = opGenWith(62, smallRepeats, []int{0, 1, -1, 3})
+
+var smallVals = []int{0, 0, 0, 0, 1, 2, 3, 30}
 
 func genCase(t *rapid.T, orders []string) Case {
-	c := Case{Order: rapid.SampledFrom(orders).Draw(t, "order")}
-	c.Init = rapid.SliceOfN(rapid.IntRange(0, 20), 0, 10).Draw(t, "init")
+	c := Case{Order: rapid.SampledFrom(orders).Draw(t, "order"), Vals: rapid.SampledFrom(smallVals).Draw(t, "vals")}
+	maxInit := rapid.SampledFrom([]int{10, 10, 10, 10, 10, 10, 10, 44}).Draw(t, "maxinit") // > 20: past sort.Stable's insertion-sort blocks
+	c.Init = rapid.SliceOfN(rapid.IntRange(0, 62), 0, maxInit).Draw(t, "init")
 	if c.Init == nil {
 		c.Init = []int{}
 	}
@@ -513,25 +895,31 @@ func genCase(t *rapid.T, orders []string) Case {
 	if l2 := rapid.IntRange(0, 36).Draw(t, "minops2"); l2 > lo {
 		lo = l2
 	}
-	c.Ops = rapid.SliceOfN(opGen, lo, 40).Draw(t, "ops")
+	c.Ops = rapid.SliceOfN(smallOpGen, lo, 40).Draw(t, "ops")
 	if c.Ops == nil {
 		c.Ops = []Op{}
 	}
 	return c
 }
 
-var strictOrders = []string{"int", "named", "desc", "str"}
+var strictOrders = []string{"int", "named", "desc", "str", "edge", "float", "lex", "unit", "ifdesc", "ifstr", "iffloat", "ifweird", "ifptr"}
+var weakOrders = []string{"weak", "ifweak"}
+
+const ruleSmall = "SMALL histories: 0..10 (one case in eight: 0..44) explicit initial values, raw x in 0..62, Vals in {7,1,2,3,30}, 0..3 spare; <= 40 ops, one op in 16 repeated 2, 3, 6 or 41 times. "
 
 var specStrict = pbt.Register(&pbt.Spec[Case]{
-	Property: "C07", Name: "C07.strict", Rule: "rapid: orders int/named/desc/str (strict total orders consistent with ==); " + rule,
+	Property: "C07", Name: "C07.strict",
+	Rule: "rapid: strict total orders consistent with == — int, named slice type, descending, strings, ints at the ends of the int range, floats with -0.0/+0.0/Inf/denormal, lexicographic structs, zero-size struct{}, " +
+		"and slice types that carry their OWN differing sort.Interface (sort.IntSlice/StringSlice/Float64Slice with a descending less, user types with value- and pointer-receiver methods); " + ruleSmall + rule + ruleSmallNT,
 	Gen: func(t *rapid.T) Case { return genCase(t, strictOrders) },
 	Run: Run, Quick: 30000, Thorough: 200000,
 })
 
 var specWeak = pbt.Register(&pbt.Spec[Case]{
-	Property: "C07", Name: "C07.weak", Rule: "rapid: weak order on {K,T} comparing K only (first and last sentence of the statement only: the position of an added element among equivalents, and which equivalent element Remove takes or whether it finds one, are free); " + rule,
-	Gen: func(t *rapid.T) Case { return genCase(t, []string{"weak"}) },
-	Run: Run, Quick: 15000, Thorough: 100000,
+	Property: "C07", Name: "C07.weak",
+	Rule: "rapid: weak order on {K,T} comparing K only, over []kt and over a named slice type whose own sort.Interface compares T (first and last sentence of the statement only: the position of an added element among equivalents, and which equivalent element Remove takes or whether it finds one, are free); " + ruleSmall + rule + ruleSmallNT,
+	Gen:  func(t *rapid.T) Case { return genCase(t, weakOrders) },
+	Run:  Run, Quick: 15000, Thorough: 100000,
 })
 
 func TestC07Strict(t *testing.T) { pbt.Check(t, specStrict) }
